@@ -22,19 +22,19 @@ CHECKS = {
    note="History depth is the bound; banks and addresses are a fixed small alphabet chosen so that every bank holds different code.", ref="5/C03"),
  "C04": dict(cat="translation_validation", engine="E3",
    technique="exhaustive enumeration of generated multi-block programs (fragment sequences up to a length bound) run in jit and non-jit builds, per-step state digests compared",
-   text="Every program over the fragment alphabet up to the stated length is assembled into a real ROM file and stepped block by block in both build configurations; registers, memory, IF/IE, timer, LCD, frame buffers, DMA, controller state and serial output must agree after every step.",
+   text="Every program over the fragment alphabet up to the stated length is assembled into a real ROM file and stepped block by block in both build configurations; registers, memory, IF/IE, timer, LCD, frame buffers, DMA, controller state and serial output must agree after every step. Plus 48 long-running pressure programs (bank orders x 5..12 entry points per bank into a 12 KiB sled) that empty the 8 MiB translation area several times each.",
    note="Program size (fragments from a fixed alphabet) and step budget are the bounds.", ref="5/C04"),
  "C05": dict(cat="exploration", engine="E1",
    technique="exhaustive enumeration of operand/flag spaces on interpreter::run_next_op vs an independent SM83 reference",
-   text="All data opcodes over complete (A, operand, F) spaces, all 2^16 values for 16-bit inc/dec, 2^16 x 2^8 for SP-relative forms, all POP AF words, ADD HL,rr boundary product (quick) / all 2^32 pairs (thorough); results, flags and register-pair range compared with R1.",
+   text="All data opcodes over complete (A, operand, F) spaces, all 2^16 values for 16-bit inc/dec, 2^16 x 2^8 for SP-relative forms, all POP AF words, ADD HL,rr boundary product (quick) / all 2^32 pairs (thorough); results, flags and register-pair range compared with R1. The sweeps are repeated in a hooks-off build with the repository's release settings (registers, flags, cycles, status, refusal, bytes at the predicted write addresses).",
    note="R1 is written from the opcode bit-field decomposition and self-tested against arithmetic definitions (decimal add/subtract for DAA).", ref="5/C05"),
  "C06": dict(cat="exploration", engine="E1",
    technique="exhaustive enumeration of encodings x flags x PC/SP placements x targets on interpreter::run_next_op vs independent length/cycle/terminator tables",
-   text="All 512 encodings x 16 flag states x PC placements incl. region ends; all 256 JR displacements, all 65536 JP/CALL targets and SP values for stack forms; PC, SP, cycles, stack bytes, block-end flag, and refusal of the 11 undefined opcodes.",
+   text="All 512 encodings x 16 flag states x PC placements incl. region ends; all 256 JR displacements, all 65536 JP/CALL targets and SP values for stack forms; PC, SP, cycles, stack bytes, block-end flag, and refusal of the 11 undefined opcodes. The sweeps are repeated in a hooks-off build with the repository's release settings (no debug assertions, no overflow checks).",
    note="Instruction bytes are placed in ROM, WRAM and HRAM of a real Core; R1 tables are independent of decoder/mod.rs.", ref="5/C06"),
  "C07": dict(cat="model_checking", engine="E2b",
    technique="one-step conformance of Core::handle_interrupt from every (IF, IE, IME, run state, SP, PC) state against a reference interrupt controller",
-   text="Complete IF x IE x IME x run-state product with SP over boundary set (quick) / all 65536 values (thorough), reached directly and through update()/run_interp; every field, the pushed bytes and 'nothing else written' (bus trace) compared with R4.",
+   text="Complete IF x IE x IME x run-state product with SP over boundary set (quick) / all 65536 values (thorough), reached directly and through update()/run_interp; every field, the pushed bytes and 'nothing else written' (bus trace) compared with R4. The five charged cycles must reach the devices with the next block in both builds (jit build as a separate process): exactly 20 clocks more than the same update() entered without the charge.",
    note="Where hardware order is unspecified (pushed low byte landing on IF while it is acknowledged) R4 accepts both outcomes.", ref="5/C07"),
  "C08": dict(cat="model_checking", engine="E2a",
    technique="depth-bounded exhaustive enumeration of instruction sequences over the EI/DI/RETI/HALT/STOP alphabet on Core::update, lock-step with a reference state machine",
@@ -42,15 +42,15 @@ CHECKS = {
    note="HALT executed with an enabled request already pending is excluded as the property says.", ref="5/C08"),
  "C09": dict(cat="model_checking", engine="E2a+E3",
    technique="exhaustive enumeration of programs/step sequences in three stepping regimes; delivered device time (divider phase hook) checked against CPU cycles per step",
-   text="For every generated program and every step: delta of the timer's divider phase = 4 x (machine cycles of the step + 5 per dispatch + 1 per halted step); every step advances time; run_frame terminates within two frames plus a block.",
+   text="For every generated program and every step: delta of the timer's divider phase = 4 x (machine cycles of the step + 5 per dispatch + 1 per halted step); every step advances time; run_frame terminates within two frames plus a block. The program alphabet switches the display off and on again; DMA progress is a third device clock.",
    note="Instruction cycles come from R1 in the non-jit regimes and from last_block_cycle_length in the jit regime.", ref="5/C09"),
  "C10": dict(cat="exploration", engine="E1",
    technique="exhaustive enumeration of (write address, probe address) pairs on the real bus helpers vs a reference memory map",
-   text="For every base set-up, every one of the 65536 write targets x values is applied to the real MemoryAreas and to R2 and all 65536 addresses are read back and compared under the per-address mask; all ordered pairs of writes over the boundary set; fetch view vs data view.",
+   text="For every base set-up, every one of the 65536 write targets x values is applied to the real MemoryAreas and to R2 and all 65536 addresses are read back and compared under the per-address mask; all ordered pairs of writes over the boundary set; fetch view vs data view. Set-ups include ROM sizes that are not a power of two and the display running with the LCD controller standing in mode 2, 3 and 0 of a visible line.",
    note="I/O read-back is judged only for the 17 registers and bits the property lists.", ref="5/C10"),
  "C11": dict(cat="fault_enumeration", engine="E1+E4",
    technique="exhaustive enumeration of header configurations x controller register states x addresses x access kinds in crash-isolated workers",
-   text="Cores built by Core::from_rom_file for every supported (type, ROM size, RAM size) combination; every address x {read, write, word read, word write} at extreme register states and every register state x region-edge addresses; any worker death is a violation.",
+   text="Cores built by Core::from_rom_file for every supported (type, ROM size, RAM size) combination; every address x {read, write, word read, word write} at extreme register states and every register state x region-edge addresses; any worker death is a violation. Files shorter than their header declares are offered to the real loader and every accepted one is swept with the last bank selected.",
    note="Factorisation of the register-state x address product is stated in the evidence.", ref="5/C11"),
  "C12": dict(cat="model_checking", engine="E2c+E2b",
    technique="breadth-first closure of the MBC register state machine on the real bus (all 256 write values per register window) in lock-step with a reference controller",
@@ -62,23 +62,23 @@ CHECKS = {
    note="DIV write while the selected bit is high: both outcomes accepted (statement leaves it open).", ref="5/C13"),
  "C14": dict(cat="model_checking", engine="E2b",
    technique="stride walks covering every (frame position, batch size) pair on VideoState::run_clock_cycles against a closed-form schedule",
-   text="For every batch size and start offset the PPU is stepped across three frames; LY, mode, STAT bits and returned interrupt flags compared with R6 after every batch, for every STAT enable mask and a set of LYC values.",
+   text="For every batch size and start offset the PPU is stepped across three frames; LY, mode, STAT bits and returned interrupt flags compared with R6 after every batch, for every STAT enable mask and a set of LYC values. Written STAT bytes include the read-only bits 0-2 and bit 7.",
    note="STAT/LYC write-time requests are not judged.", ref="5/C14"),
  "C15": dict(cat="exploration", engine="E1",
    technique="factor-complete enumeration of scroll/window/object/palette parameters over structured VRAM/OAM images, real PPU frame vs reference pixel function",
-   text="Frames rendered through run_clock_cycles for all 256 values of each scroll/window coordinate, all object X/Y positions, attribute combinations, priority pairs and the ten-per-line family are compared pixel by pixel with R7.",
+   text="Frames rendered through run_clock_cycles for all 256 values of each scroll/window coordinate, all object X/Y positions, attribute combinations, priority pairs and the ten-per-line family are compared pixel by pixel with R7. A scene family changes every single LCDC bit between consecutive frames in both directions with objects on the first and last visible line.",
    note="VRAM/OAM contents are structured images, not all contents; documented hardware glitches (WX=166, WX<7 with fine scroll) not judged.", ref="5/C15"),
  "C16": dict(cat="model_checking", engine="E2b+E2a",
    technique="one-step conformance of the OAM DMA engine from every (progress, source page) state under every batch size/re-arm/source modification, plus depth-3 histories",
-   text="All 256 pages x 161 progress values x batch sizes; OAM, progress and the bus-write trace (exactly 0xFE00+n ascending, nothing else) compared with R8.",
+   text="All 256 pages x 161 progress values x batch sizes; OAM, progress and the bus-write trace (exactly 0xFE00+n ascending, nothing else) compared with R8. The one-step relation is repeated with the display on and the LCD controller standing in mode 2, 3 and 0 of a visible line.",
    note="Source read through the reference bus map at copy time.", ref="5/C16"),
  "C17": dict(cat="model_checking", engine="E2b",
    technique="complete one-step transition relation of the joypad (all states x all actions) against a reference matrix model",
-   text="256 button states x 4 selections x (press/release of 8 buttons, all 256 select-write values), through the Joypad API and through IO/IF; P1 & 0x3F, request and once-only reporting compared with R8.",
+   text="256 button states x 4 selections x (press/release of 8 buttons, all 256 select-write values), through the Joypad API and through IO/IF; P1 & 0x3F, request and once-only reporting compared with R8. All histories of 2 (thorough 3) actions over a 20-letter alphabet from every state, judged after every action.",
    note="P1 bits 6-7 not judged.", ref="5/C17"),
  "C18": dict(cat="model_checking", engine="E2a+E3+E2E",
    technique="depth-bounded exhaustive enumeration of SB/SC write sequences compiled to ROM programs, captured fd 1 of jit/non-jit workers and of the real binary vs reference",
-   text="Every sequence up to the stated length over SB/SC writes x three store forms; bytes captured from standard output must equal SB at each SC write with bit 7, in order, nothing else.",
+   text="Every sequence up to the stated length over SB/SC writes x three store forms; bytes captured from standard output must equal SB at each SC write with bit 7, in order, nothing else. Every short sequence is also run under other device activity: OAM DMA in flight, display on, timer running, IE/IF all set.",
    note="End-to-end subset through the real executable in both feature configurations.", ref="5/C18"),
  "C19": dict(cat="fault_enumeration", engine="E1+E4+E2E",
    technique="exhaustive enumeration of checksum byte, (type, ROM-size, RAM-size) triples and file lengths on the loader functions, crash-isolated, plus the real binary",
@@ -86,7 +86,7 @@ CHECKS = {
    note="Header bytes outside type/size/checksum are structured patterns (the property's 'random elsewhere' replaced by deterministic enumeration).", ref="5/C19"),
  "C20": dict(cat="exploration", engine="E1",
    technique="exhaustive enumeration of all addresses in both notations, all strings up to a length bound over a hazard alphabet, and all sequences of <=2 complete instructions",
-   text="parse_address over all 65536 values x notations and out-of-range numbers; parse_command over every string of length <= 5 over a 17-symbol alphabet vs a reference tokenizer; disassemble tiling vs R1 lengths and decoder.",
+   text="parse_address over all 65536 values x notations and out-of-range numbers; parse_command over every string of length <= 5 over a 17-symbol alphabet vs a reference tokenizer; disassemble tiling vs R1 lengths and decoder. Every 2-byte instruction x all 256 operand bytes and every 3-byte instruction x complete operand bytes (thorough: all 65536 words) through disassemble.",
    note="Line length and instruction-sequence length are the bounds.", ref="5/C20"),
 }
 
@@ -113,7 +113,7 @@ def main():
             level_note=c["note"],
             technique=c["technique"],
         ))
-    hooks = os.popen("git -C /repo log --format=%%H --grep='^verif hook' 2>/dev/null").read().split()
+    hooks = os.popen("git -C /repo log --format=%H --grep='^verif hook' 2>/dev/null").read().split()
     m = dict(
         version=1,
         setup_cmd="bin/check --build",
@@ -132,7 +132,7 @@ def main():
         ],
         checks=checks,
         not_applicable=na,
-        notes="All checks are bounded exhaustive enumeration (model-checking family); no sampling. VERIF_SEED is recorded but unused.",
+        notes="All checks are bounded exhaustive enumeration (model-checking family); no sampling. VERIF_SEED is recorded but unused. Every check additionally reruns its quick tier in a release-profile build of the harness (opt-level 3, no overflow checks, no debug assertions) and folds the result in as one more stage.",
     )
     json.dump(m, open(os.path.join(ROOT, "MANIFEST.json"), "w"), indent=1)
     print("MANIFEST.json: %d checks, %d not yet implemented" % (len(checks), len(na)))
